@@ -56,6 +56,20 @@ CLAIMED = {
         note="Trusted: the per-function definitions in mc/props/c06.py and mc/core/refsem.py. Int/Real arguments are "
              "confined to the pools; operands are symbols or literals, not compound terms.",
         design="§3 C06"),
+    "C04": dict(
+        category="model_checking", engine="explorer",
+        technique="exhaustive enumeration of construction histories (one blueprint by one spelling, noise, failed "
+                  "constructions) replayed on fresh environments against an independently normalised structural key, plus "
+                  "an exhaustive sweep of cross-environment copies",
+        text="96 blueprints with 204 spellings in 7 families; every history up to length 3 (thorough 4 over a reduced "
+             "alphabet) is replayed in a fresh Environment; after it, two built formulas must be the same object exactly "
+             "when their hand-normalised keys are equal, every accessor must report the blueprint, array_value_get must "
+             "be right on every index constant. Part 2: every term of the standard pools plus custom/parametric sorts is "
+             "normalised into an empty and a pre-populated environment and back: same structure, no shared node or type "
+             "object, idempotent, round trip is the identity.",
+        note="Trusted: the normalisation table norm() in mc/props/c04.py (self-tested at import). Families are explored "
+             "separately; widths <= 3.",
+        design="§3 C04"),
     "C05": dict(
         category="exploration",
         technique="bounded-exhaustive enumeration of (formula, substitution map / function interpretation) pairs; "
@@ -261,7 +275,7 @@ ENGINES = [
          kind_free_text="external work monitor (walker callbacks, create_node, python-level calls)"),
     dict(name="table", path="mc/props/c06.py", serves_properties=["C06"],
          kind_free_text="exhaustive table-driven enumeration over finite operand domains"),
-    dict(name="explorer", path="mc/core/explorer.py", serves_properties=["C14", "C15", "C16", "C17"],
+    dict(name="explorer", path="mc/core/explorer.py", serves_properties=["C04", "C14", "C15", "C16", "C17"],
          kind_free_text="explicit-state breadth-first search over API histories replayed on fresh real objects in lock-step with a reference model"),
     dict(name="sweep", path="mc/core/sweep.py", serves_properties=["C01", "C02", "C03", "C05", "C07", "C08", "C09", "C10", "C11", "C12", "C13"],
          kind_free_text="sharded bounded-exhaustive term enumeration (termgen) + reference semantics (refsem)"),
